@@ -7,6 +7,7 @@ from fractions import Fraction
 import numpy as np
 
 from .common import Run, bool_s, frac_s, list_s, opt_s
+from .c09 import cache_history
 
 META = {
     "claimed": True,
@@ -382,6 +383,7 @@ def exact_cog_part(R: Run, mods):
         # dyadic substitutes for the pyproj-derived centre-pixel fit (exact stream)
         subst = (2.0 ** rng.randint(-8, 10), 2.0 ** rng.randint(-8, 10), 2.0 ** rng.randint(-3, 3), 2.0 ** rng.randint(-3, 3))
         box = []
+        cache_history(rng, g.crs, crs)
 
         def f():
             out, spy = call_cog(mods, g, crs, mode, shape, tight, anchor, tol, rnd, subst)
@@ -500,7 +502,12 @@ def make_source(R, mods, lon, lat, src_crs, extent_m, n_pix, rotated):
     res = float(f"{res:.3g}") if rng.random() < 0.7 else res
     ny = max(1, int(n_pix * rng.choice([1, 0.6, 1.5])))
     A = Affine.translation(cx - res * n_pix / 2, cy + res * ny / 2) * Affine.scale(res, -res)
-    if rotated == "mirror":
+    if rotated == "tiny":
+        # tiny but non-zero rotation: off-diagonal terms 1e-14 .. 1e-4 around the tolerance of is_affine_st
+        off = 10 ** rng.uniform(-14, -4)
+        ang = math.degrees(min(off / res, 0.2)) * rng.choice([1, -1])
+        A = Affine.translation(cx, cy) * Affine.rotation(ang) * Affine.translation(-res * n_pix / 2, res * ny / 2) * Affine.scale(res, -res)
+    elif rotated == "mirror":
         A = Affine.translation(cx + res * n_pix / 2, cy + res * ny / 2) * Affine.scale(-res, -res)
     elif rotated:
         A = Affine.translation(cx, cy) * Affine.rotation(rng.uniform(-40, 40)) * Affine.translation(-res * n_pix / 2, res * ny / 2) * Affine.scale(res, -res)
@@ -541,7 +548,7 @@ def float_part(R: Run, mods):
             continue
         if abs(lon) + half_deg / max(0.2, math.cos(math.radians(abs(lat) + half_deg))) > 178:
             continue
-        rotated = rng.choice([False, False, False, True, True, "mirror"])
+        rotated = rng.choice([False, False, False, True, True, "mirror", "tiny"])
         try:
             g = make_source(R, mods, lon, lat, src_crs, extent, npx, rotated)
         except Exception:  # pylint: disable=broad-except
@@ -593,6 +600,8 @@ def float_part(R: Run, mods):
             if rnd is True and dst == "EPSG:4326":
                 rnd = None  # rounding degrees to whole numbers gives a zero pixel size: not a sensible request
                 case["round"] = None
+            # process-global cache histories user code may have created for this CRS pair
+            cache_history(rng, g.crs, dst if not dst.startswith("utm") else f"EPSG:{u}")
             out, spy = call_cog(mods, g, dst, mode_arg, shape, tight, anchor, tol, rnd)
         except Exception as e:  # pylint: disable=broad-except
             R.oracle(False, "compute-output-raises", case, f"{type(e).__name__}: {e}")
@@ -680,6 +689,23 @@ def judge(R, mods, g, dst, mode, shape, tight, anchor, tol, rnd, out, spy, case,
             R.oracle(disp < 1 + slack, "shape-displacement", case, f"displaced by {float(disp):.3f} pixels from the footprint", sig=sig)
             if tight or anchor == "floating":
                 R.oracle(disp <= slack, "shape-tight-no-displacement", case, f"tight/floating but displaced {float(disp):.3g} px")
+    # two-sided: the grid equals the exact re-computation from the footprint bbox the code used, the pixel size,
+    # the requested anchor and the *requested* tol (skipped within rounding distance of a floor/ceil/tol decision)
+    if bb is not None and shape is None:
+        snapping = not tight and anchor != "floating"
+        offs = (None, None) if not snapping else ((0, 0) if anchor in ("default", "edge") else (F(1, 2), F(1, 2)) if anchor == "center"
+                                                 else (F(anchor[0]), F(anchor[1])))
+        for (x0, x1, res_, off, got_t, got_n, nm) in ((l, r, a, offs[0], c, nx, "x"), (b, tp, e, offs[1], f, ny, "y")):
+            if x0 > x1:
+                continue
+            ulp = max(abs(x0), abs(x1), abs(res_)) * F(1, 2 ** 52)
+            if near_decision(x0, x1, res_, off, t, eps=16 * ulp / abs(res_) + F(1, 2 ** 48)):
+                R.count("oracle:output-grid-exact|skipped-near-decision")
+                continue
+            wt, wn = snap_exact(x0, x1, res_, off, t)
+            R.oracle(got_n == wn and abs(got_t - wt) <= 8 * ulp + abs(res_) * F(1, 10 ** 12), f"output-grid-exact-{nm}", case,
+                     f"{nm}: origin {float(got_t)} n={got_n}, but footprint bbox [{float(x0)}, {float(x1)}], pixel {float(res_)}, "
+                     f"anchor {None if off is None else float(off)}, tol {float(t)} give origin {float(wt)} n={wn}", sig=sig)
     # alignment
     if not tight and anchor != "floating":
         ax, ay = (0, 0) if anchor in ("default", "edge") else (F(1, 2), F(1, 2)) if anchor == "center" else (F(anchor[0]), F(anchor[1]))
@@ -718,12 +744,60 @@ def judge(R, mods, g, dst, mode, shape, tight, anchor, tol, rnd, out, spy, case,
                 R.oracle(True, "encloses-every-pixel", case, "", sig=sig)
 
 
+def coarse_part(R: Run, mods):
+    """coarse destinations (output pixel >= 100 source pixels) with small tol and footprint edges placed
+    tol * {0.5, 2} before / past output pixel boundaries (captured-bbox construction: the pixel size and the
+    anchor fractions are derived from the footprint bbox the code will see)"""
+    Affine, GeoBox, ov, M, CRS, norm_crs, _pick, resxy_, xy_, AnchorEnum = mods
+    rng = R.rng
+    for _ in range(R.pick(48, 400)):
+        k = rng.random()
+        if k < 0.6:
+            z = rng.randint(28, 37)
+            n = rng.choice([1200, 2000, 5490])
+            src = GeoBox((n, n), Affine(10, 0, 199980 + 10 * rng.randint(0, 30000), 0, -10, 4000020 + 10 * rng.randint(-30000, 60000)), f"EPSG:326{z}")
+            dst = rng.choice(["EPSG:3857", "EPSG:4326", "EPSG:6933", f"EPSG:326{z + rng.choice([-1, 1])}"])
+        elif k < 0.8:
+            n = rng.choice([1500, 3000])
+            src = GeoBox((n, n), Affine(1e-4, 0, rng.uniform(-120, 120), 0, -1e-4, rng.uniform(-55, 60)), "EPSG:4326")
+            dst = rng.choice(["EPSG:3857", "EPSG:6933", "utm"])
+        else:
+            n = rng.choice([1000, 4000])
+            src = GeoBox((n, n), Affine(-20, 0, 1500000 + 20 * n, 0, -20, 6500000), "EPSG:3857")  # mirrored
+            dst = rng.choice(["EPSG:4326", "EPSG:6933"])
+        tol = rng.choice([1e-2, 1e-3, 1e-4, 1e-6])
+        try:
+            bbox = src.footprint(dst, buffer=0.9, npoints=100).boundingbox
+        except Exception:  # pylint: disable=broad-except
+            continue
+        N = rng.randint(2, 10)
+        fl, fr, fb = (rng.choice([0.5, 2, -0.5, -2]) * tol for _ in range(3))
+        res = bbox.span_x / (N + fr - fl)
+        ax = (bbox.left / res - fl) % 1.0
+        ay = (bbox.bottom / res - fb) % 1.0
+        if not (0 <= ax < 1 and 0 <= ay < 1) or res <= 0:
+            continue
+        anchor = (ax, ay)
+        mode = (res, -res)
+        case = {"coarse": True, "src": f"{tuple(src.shape)} {tuple(src.affine)[:6]} {src.crs}", "dst": dst, "mode": f"explicit {mode}",
+                "shape": None, "tight": False, "anchor": anchor_s(anchor), "tol": tol, "round": None, "class": "coarse",
+                "edge_fractions": [fl, fr, fb]}
+        try:
+            cache_history(rng, src.crs, dst)
+            out, spy = call_cog(mods, src, dst, mode, None, False, anchor, tol, None)
+        except Exception as e:  # pylint: disable=broad-except
+            R.oracle(False, "compute-output-raises", case, f"{type(e).__name__}: {e}")
+            continue
+        judge(R, mods, src, dst, mode, None, False, anchor, tol, None, out, spy, case, 0, 0)
+
+
 def run(R: Run):
     mods = _import()
     snap_part(R, mods)
     snap_float_part(R, mods)
     exact_cog_part(R, mods)
     utm_part(R, mods)
+    coarse_part(R, mods)
     float_part(R, mods)
     R.assumptions.append("pyproj/PROJ transformations, shapely buffer/densify and the pyproj UTM database query are parameters: "
                          "their outputs are captured from the real run and fed to the model; enclosure under projection "
